@@ -10,6 +10,7 @@ import (
 	"math/rand/v2"
 	"os"
 	"path/filepath"
+	"runtime/debug"
 	"sort"
 	"strings"
 
@@ -72,15 +73,26 @@ const (
 	// A commit that dropped k>0 samples (counter delta) raised the chunks gauge by up to k more
 	// than the number of chunks that came into existence.
 	kindChunksDropped = "head-chunks-gauge-double-counts-when-next-sample-is-dropped-at-commit"
-	// Right after a reopen that loaded the chunk snapshot, then failed to load the m-mapped
-	// chunks (corruption counter > 0) and replayed the whole WAL on top of the snapshot state.
-	kindStaleOverSnapshot = "stale-series-gauge-double-counts-when-wal-is-replayed-over-loaded-snapshot"
 	// The chunks gauge falls behind the recount by N−k where, as observed from outside, k
 	// out-of-order head chunks were m-mapped into N>k chunks (one per encoding/layout segment).
 	kindOOOSplit = "head-chunks-gauge-counts-one-for-ooo-head-chunk-mmapped-into-several"
 	// Right after a reopen that replayed a WAL in which a series record follows sample records
 	// of the same series: the gauge exceeds the recount.
 	kindReplayReset = "head-chunks-gauge-keeps-replayed-chunks-dropped-by-later-series-record"
+	// Right after a reopen that replayed a WBL containing m-map markers: the gauge exceeds the
+	// recount by at most the number of markers (each marker clears the rebuilt out-of-order head
+	// chunk without adjusting the gauge).
+	kindWBLMarker = "head-chunks-gauge-keeps-ooo-head-chunk-cleared-by-wbl-mmap-marker"
+	// Right after a reopen that replayed a WAL in which ONE series ref carries TWO label sets
+	// (decoded from disk by the harness): the by-ref series map holds fewer series than were
+	// counted; any gauge may be off.
+	kindRefCollision = "head-gauges-wrong-after-replaying-wal-with-one-ref-for-two-label-sets"
+	// Right after a reopen during which the m-mapped chunk files were found corrupt and discarded
+	// (prometheus_tsdb_mmap_chunk_corruptions_total > 0) and the WAL was replayed over whatever had
+	// been loaded before; any gauge may be off.
+	kindMmapDiscard = "head-gauges-wrong-after-mmapped-chunk-files-were-discarded-during-open"
+	// tsdb.Open panics in loadChunkSnapshot on a damaged snapshot instead of falling back to the WAL.
+	kindSnapshotPanic = "panic-loading-damaged-chunk-snapshot"
 )
 
 type histRef struct {
@@ -129,6 +141,8 @@ type stepCtx struct {
 	commitDrops int                  // samples that Append accepted and Commit did not append (accepted − delta of samples_appended_total)
 	histExp     int                  // bucket entries added in place to histogram objects committed in this step
 	lateSeries  int                  // newHead: series records in the replayed WAL that follow sample records of the same series
+	refClashes  int                  // newHead: series refs that carry more than one label set in the replayed WAL
+	wblMarkers  int                  // newHead: m-map marker entries in the WBL
 	before      tsdb.VerifHeadCounts // recount before the step (live steps)
 	hasBefore   bool
 }
@@ -152,6 +166,8 @@ type state struct {
 	biasChunks  int // gauge − recount
 	biasBuckets int // recount − gauge
 	biasStale   int // gauge − recount
+	biasSeries  int // gauge − recount
+	biasHistSer int // gauge − recount
 	reported    map[string]bool
 	known       map[string]int
 	ctl         *sched.Controller
@@ -518,6 +534,12 @@ func (s *state) restart(where, step string, damage func() string) bool {
 	recs, _, err := headdisk.Scan(e.Dir)
 	core.Must(err, "decode WAL")
 	ctx.lateSeries = headdisk.LateSeriesRecords(recs)
+	ctx.refClashes = len(headdisk.RefClashes(recs))
+	if wrecs, _, err := headdisk.ScanWBL(e.Dir); err == nil {
+		for _, r := range wrecs {
+			ctx.wblMarkers += len(r.MarkerRefs)
+		}
+	}
 	e.Restarts++
 	s.note(step)
 	e.Reg = prometheus.NewRegistry()
@@ -525,7 +547,15 @@ func (s *state) restart(where, step string, damage func() string) bool {
 	if s.c.Verbose {
 		logger = slog.New(slog.NewTextHandler(os.Stderr, nil))
 	}
-	db, err := tsdb.Open(e.Dir, logger, e.Reg, e.Cfg.Options(), nil)
+	db, err, pan := openRecover(e.Dir, logger, e.Reg, e.Cfg.Options())
+	if pan != "" {
+		kind := "panic-in-repo-code"
+		if damage != nil && strings.Contains(pan, "loadChunkSnapshot") {
+			kind = kindSnapshotPanic
+		}
+		s.c.Violatef(kind, "config {%s}\n%s: tsdb.Open panicked: %s\nhistory: %s", s.cfg, step, pan, tail(e.History()))
+		return false
+	}
 	if err != nil {
 		s.c.Violatef("operation-failed:reopen", "config {%s}\n%s: reopen failed: %v\nhistory: %s", s.cfg, step, err, tail(e.History()))
 		return false
@@ -587,6 +617,18 @@ func (s *state) damagedSnapshotRestart() bool {
 	})
 }
 
+// openRecover opens the DB; a panic inside repo code is returned as text (with the stack) so
+// that the harness can classify it.
+func openRecover(dir string, logger *slog.Logger, reg *prometheus.Registry, opts *tsdb.Options) (db *tsdb.DB, err error, pan string) {
+	defer func() {
+		if r := recover(); r != nil {
+			pan = fmt.Sprintf("%v\n%s", r, core.TrimStack(string(debug.Stack()), 24))
+		}
+	}()
+	db, err = tsdb.Open(dir, logger, reg, opts, nil)
+	return db, err, ""
+}
+
 func metric(mfs []*dto.MetricFamily, name string) (float64, bool) {
 	for _, mf := range mfs {
 		if mf.GetName() == name {
@@ -641,7 +683,7 @@ func (s *state) check(where string, ctx stepCtx) bool {
 	snapshotLoaded, snapshotFailed := false, false
 	mmapCorrupt, _ := metric(mfs, "prometheus_tsdb_mmap_chunk_corruptions_total")
 	if ctx.newHead {
-		s.biasChunks, s.biasBuckets, s.biasStale = 0, 0, 0 // a new Head starts from zero
+		s.biasChunks, s.biasBuckets, s.biasStale, s.biasSeries, s.biasHistSer = 0, 0, 0, 0, 0 // a new Head starts from zero
 		if s.cfg.Snapshot {
 			if v, ok := metric(mfs, "prometheus_tsdb_snapshot_replay_error_total"); ok && v == 0 {
 				snapshotLoaded = true
@@ -654,17 +696,40 @@ func (s *state) check(where string, ctx stepCtx) bool {
 	suffix := func() string {
 		return fmt.Sprintf("\nrecount %+v, held appenders %d, observed about the step %+v\nhistory: %s", rc, len(s.held), ctx, tail(e.History()))
 	}
-	// ---- numbers without a known defect class: exact
+	gotChunks := g("prometheus_tsdb_head_chunks")
+	if gotChunks != math.Trunc(gotChunks) {
+		c.Violatef("chunks-gauge-mismatch", "config {%s}\nafter %s: prometheus_tsdb_head_chunks = %v is not an integer%s", s.cfg, where, gotChunks, suffix())
+		return false
+	}
+	gotBuckets := int(int64(h.NumNativeHistogramBuckets())) // unsigned counter: a wrapped value reads negative
+
+	// ---- a reopen over damaged / ambiguous on-disk state (established by the harness from the
+	// files and from the corruption counter, not from the gauges): every number may be off; one
+	// narrow kind, then continue relative to what was observed
+	if ctx.newHead && (ctx.refClashes > 0 || mmapCorrupt > 0) {
+		offS, offH := int(h.NumSeries())-rc.Series, int(h.NumNativeHistogramSeries())-rc.HistogramSeries
+		offSt, offB, offC := int(h.NumStaleSeries())-rc.StaleSeries, rc.HistogramBuckets-gotBuckets, int(gotChunks)-totalChunks
+		if offS != 0 || offH != 0 || offSt != 0 || offB != 0 || offC != 0 {
+			kind, why := kindMmapDiscard, fmt.Sprintf("prometheus_tsdb_mmap_chunk_corruptions_total = %v: the m-mapped chunk files were discarded while opening", mmapCorrupt)
+			if ctx.refClashes > 0 {
+				kind, why = kindRefCollision, fmt.Sprintf("the WAL that was replayed holds %d series refs with more than one label set", ctx.refClashes)
+			}
+			s.biasSeries, s.biasHistSer, s.biasStale, s.biasBuckets, s.biasChunks = offS, offH, offSt, offB, offC
+			s.knownf(kind, "config {%s}\nafter %s: %s; gauge − recount: series %+d, histogram series %+d, stale series %+d, histogram buckets %+d, chunks %+d%s", s.cfg, where, why, offS, offH, offSt, -offB, offC, suffix())
+		}
+	}
+
+	// ---- numbers without a known defect class on a healthy head: exact
 	type cmp struct {
 		kind, what string
 		got        float64
 		want       int
 	}
 	exact := []cmp{
-		{"series-gauge-mismatch", "prometheus_tsdb_head_series", g("prometheus_tsdb_head_series"), rc.Series},
-		{"series-gauge-mismatch", "Head.NumSeries()", float64(h.NumSeries()), rc.Series},
-		{"histogram-series-gauge-mismatch", "prometheus_tsdb_head_native_histogram_series", g("prometheus_tsdb_head_native_histogram_series"), rc.HistogramSeries},
-		{"histogram-series-gauge-mismatch", "Head.NumNativeHistogramSeries()", float64(h.NumNativeHistogramSeries()), rc.HistogramSeries},
+		{"series-gauge-mismatch", "prometheus_tsdb_head_series", g("prometheus_tsdb_head_series"), rc.Series + s.biasSeries},
+		{"series-gauge-mismatch", "Head.NumSeries()", float64(h.NumSeries()), rc.Series + s.biasSeries},
+		{"histogram-series-gauge-mismatch", "prometheus_tsdb_head_native_histogram_series", g("prometheus_tsdb_head_native_histogram_series"), rc.HistogramSeries + s.biasHistSer},
+		{"histogram-series-gauge-mismatch", "Head.NumNativeHistogramSeries()", float64(h.NumNativeHistogramSeries()), rc.HistogramSeries + s.biasHistSer},
 		{"active-appenders-gauge-mismatch", "prometheus_tsdb_head_active_appenders", g("prometheus_tsdb_head_active_appenders"), len(s.held)},
 		// getter and exported gauge of the same counter must agree with each other in any case
 		{"stale-series-gauge-mismatch", "prometheus_tsdb_head_stale_series − Head.NumStaleSeries()", g("prometheus_tsdb_head_stale_series") - float64(h.NumStaleSeries()), 0},
@@ -674,7 +739,7 @@ func (s *state) check(where string, ctx stepCtx) bool {
 	for _, x := range exact {
 		if x.got != float64(x.want) {
 			okExact = false
-			c.Violatef(x.kind, "config {%s}\nafter %s: %s = %v but the recount gives %d%s", s.cfg, where, x.what, x.got, x.want, suffix())
+			c.Violatef(x.kind, "config {%s}\nafter %s: %s = %v but the recount (plus known offset) gives %d%s", s.cfg, where, x.what, x.got, x.want, suffix())
 		}
 	}
 	if !okExact {
@@ -687,9 +752,6 @@ func (s *state) check(where string, ctx stepCtx) bool {
 		if snapshotFailed && over > 0 && over <= ctx.preClose.StaleSeries {
 			s.biasStale += over
 			s.knownf(kindStaleSnapshot, "config {%s}\nafter %s (chunk snapshot load failed, head rebuilt from the WAL): prometheus_tsdb_head_stale_series = %d but %d series are stale (%d stale series were in the head when the snapshot was written)%s", s.cfg, where, h.NumStaleSeries(), rc.StaleSeries, ctx.preClose.StaleSeries, suffix())
-		} else if snapshotLoaded && mmapCorrupt > 0 && over > 0 && over <= ctx.preClose.StaleSeries {
-			s.biasStale += over
-			s.knownf(kindStaleOverSnapshot, "config {%s}\nafter %s (chunk snapshot loaded, then loading the m-mapped chunks failed and the whole WAL was replayed on top): prometheus_tsdb_head_stale_series = %d but %d series are stale%s", s.cfg, where, h.NumStaleSeries(), rc.StaleSeries, suffix())
 		} else {
 			c.Violatef("stale-series-gauge-mismatch", "config {%s}\nafter %s: Head.NumStaleSeries() = %d (known excess carried: %d) but the recount gives %d%s", s.cfg, where, h.NumStaleSeries(), s.biasStale, rc.StaleSeries, suffix())
 			ok = false
@@ -697,7 +759,6 @@ func (s *state) check(where string, ctx stepCtx) bool {
 	}
 
 	// ---- native histogram buckets (the counter is unsigned: read a wrapped value as negative)
-	gotBuckets := int(int64(h.NumNativeHistogramBuckets()))
 	if def := rc.HistogramBuckets - gotBuckets - s.biasBuckets; def != 0 {
 		switch {
 		case !ctx.newHead && def > 0 && def <= ctx.histExp:
@@ -713,15 +774,10 @@ func (s *state) check(where string, ctx stepCtx) bool {
 	}
 
 	// ---- chunks
-	gotChunks := g("prometheus_tsdb_head_chunks")
-	if gotChunks != math.Trunc(gotChunks) {
-		c.Violatef("chunks-gauge-mismatch", "config {%s}\nafter %s: prometheus_tsdb_head_chunks = %v is not an integer%s", s.cfg, where, gotChunks, suffix())
-		return false
-	}
 	if over := int(gotChunks) - totalChunks - s.biasChunks; over != 0 {
 		// What the harness saw, from outside, that the known defect classes need:
-		// split: upper bound (live append/commit steps: exact when nothing else happened) of N−k for
-		// out-of-order head chunks m-mapped into several chunks.
+		// split = upper bound (exact inside maintenance steps) of N−k for k out-of-order head
+		// chunks m-mapped into N>k chunks.
 		split := 0
 		switch {
 		case ctx.newHead:
@@ -752,38 +808,48 @@ func (s *state) check(where string, ctx stepCtx) bool {
 				split = n - 1
 			}
 		}
-		switch {
-		case snapshotLoaded && mmapCorrupt == 0 && -over == rc.HeadChunks:
-			// every in-order head chunk in memory right after the reopen was installed by the
-			// snapshot loader (the WAL behind a shutdown snapshot is empty)
+		known := func(kind, why string) {
 			s.biasChunks += over
-			s.knownf(kindSnapshotChunks, "config {%s}\nafter %s: prometheus_tsdb_head_chunks = %v but the head holds %d chunks (%d in-order head chunks loaded from the chunk snapshot + %d m-mapped + %d ooo m-mapped + %d ooo head); deficit = number of head chunks installed by loadChunkSnapshot%s", s.cfg, where, gotChunks, totalChunks, rc.HeadChunks, rc.MmappedChunks, rc.OOOMmappedChunks, rc.OOOHeadChunks, suffix())
-		case ctx.newHead && (!snapshotLoaded || mmapCorrupt > 0) && over > 0 && ctx.lateSeries > 0:
-			s.biasChunks += over
-			s.knownf(kindReplayReset, "config {%s}\nafter %s: prometheus_tsdb_head_chunks = %v but the head holds %d chunks; the replayed WAL has %d series records that follow sample records of the same series (replayed head chunks are dropped by such a record without adjusting the gauge)%s", s.cfg, where, gotChunks, totalChunks, ctx.lateSeries, suffix())
-		case ctx.newHead && !snapshotLoaded && over < 0 && -over <= split && ctx.lateSeries == 0:
-			s.biasChunks += over
-			s.knownf(kindOOOSplit, "config {%s}\nafter %s: prometheus_tsdb_head_chunks = %v but the head holds %d chunks, %d of them out-of-order m-mapped chunks (WBL replay m-maps a full out-of-order head chunk into one chunk per encoding/layout segment and counts one)%s", s.cfg, where, gotChunks, totalChunks, rc.OOOMmappedChunks, suffix())
-		case ctx.newHead && !snapshotLoaded && ctx.lateSeries > 0 && -over <= split:
-			// both replay mechanisms may have acted; sign decides the label
-			s.biasChunks += over
-			s.knownf(kindOOOSplit, "config {%s}\nafter %s: prometheus_tsdb_head_chunks = %v but the head holds %d chunks, %d of them out-of-order m-mapped chunks; the WAL also has %d late series records%s", s.cfg, where, gotChunks, totalChunks, rc.OOOMmappedChunks, ctx.lateSeries, suffix())
-		case !ctx.newHead && over > 0 && over <= ctx.commitDrops:
-			s.biasChunks += over
-			s.knownf(kindChunksDropped, "config {%s}\nafter %s: prometheus_tsdb_head_chunks = %v (known offset carried: %d) but the head holds %d chunks; Append had accepted %d more samples than the commit appended%s", s.cfg, where, gotChunks, s.biasChunks-over, totalChunks, ctx.commitDrops, suffix())
-		case !ctx.newHead && len(s.mid) > 0 && -over == split:
-			s.biasChunks += over
-			s.knownf(kindOOOSplit, "config {%s}\nafter %s: prometheus_tsdb_head_chunks = %v (known offset carried: %d) but the head holds %d chunks; inside the step out-of-order head chunks were m-mapped into %d more chunks than there were head chunks, the gauge did not move%s", s.cfg, where, gotChunks, s.biasChunks-over, totalChunks, split, suffix())
-		case !ctx.newHead && len(s.mid) == 0 && over >= -split && over <= ctx.commitDrops:
-			s.biasChunks += over
-			kind := kindOOOSplit
-			if over > 0 {
-				kind = kindChunksDropped
+			s.knownf(kind, "config {%s}\nafter %s: prometheus_tsdb_head_chunks = %v (known offset carried: %d) but the head holds %d chunks; %s%s", s.cfg, where, gotChunks, s.biasChunks-over, totalChunks, why, suffix())
+		}
+		if ctx.newHead {
+			// after a reopen several replay defects can overlap; each has its observable
+			// precondition, the offset must lie inside the bounds they allow together
+			snapDef := 0
+			if snapshotLoaded {
+				snapDef = rc.HeadChunks // head chunks installed by the snapshot loader are not counted
 			}
-			s.knownf(kind, "config {%s}\nafter %s: prometheus_tsdb_head_chunks = %v (known offset carried: %d) but the head holds %d chunks; the step added %d out-of-order m-mapped chunks (before: %+v) and dropped %d accepted samples at commit%s", s.cfg, where, gotChunks, s.biasChunks-over, totalChunks, rc.OOOMmappedChunks-ctx.before.OOOMmappedChunks, ctx.before, ctx.commitDrops, suffix())
-		default:
-			c.Violatef("chunks-gauge-mismatch", "config {%s}\nafter %s: prometheus_tsdb_head_chunks = %v (known offset carried: %d) but the recount gives %d (ooo split observed: %d, hook observations: %d)%s", s.cfg, where, gotChunks, s.biasChunks, totalChunks, split, len(s.mid), suffix())
-			ok = false
+			lower, upper := -snapDef-split, ctx.wblMarkers
+			if ctx.lateSeries > 0 && !snapshotLoaded {
+				upper += totalOf(ctx.preClose) // head chunks rebuilt and dropped again: unknown from outside
+			}
+			switch {
+			case snapshotLoaded && -over == snapDef:
+				known(kindSnapshotChunks, fmt.Sprintf("deficit = the %d in-order head chunks installed by loadChunkSnapshot", rc.HeadChunks))
+			case over < lower || over > upper:
+				c.Violatef("chunks-gauge-mismatch", "config {%s}\nafter %s: prometheus_tsdb_head_chunks = %v but the recount gives %d; offset %+d outside [%d,%d] (snapshot-loaded head chunks %d, possible ooo split %d, wbl m-map markers %d, late series records %d)%s", s.cfg, where, gotChunks, totalChunks, over, lower, upper, snapDef, split, ctx.wblMarkers, ctx.lateSeries, suffix())
+				ok = false
+			case over > 0 && ctx.lateSeries > 0 && !snapshotLoaded:
+				known(kindReplayReset, fmt.Sprintf("the replayed WAL has %d series records that follow sample records of the same series (replayed head chunks are dropped by such a record without adjusting the gauge)", ctx.lateSeries))
+			case over > 0:
+				known(kindWBLMarker, fmt.Sprintf("the replayed WBL has %d m-map markers (each clears the out-of-order head chunk rebuilt so far without adjusting the gauge)", ctx.wblMarkers))
+			case snapDef > 0:
+				known(kindSnapshotChunks, fmt.Sprintf("%d in-order head chunks were installed by loadChunkSnapshot without being counted (other replay offsets overlap: wbl m-map markers %d, possible ooo split %d)", rc.HeadChunks, ctx.wblMarkers, split))
+			default:
+				known(kindOOOSplit, fmt.Sprintf("%d of the chunks are out-of-order m-mapped chunks (WBL replay m-maps a full out-of-order head chunk into one chunk per encoding/layout segment and counts one)", rc.OOOMmappedChunks))
+			}
+		} else {
+			switch {
+			case len(s.mid) > 0 && -over == split:
+				known(kindOOOSplit, fmt.Sprintf("inside the step out-of-order head chunks were m-mapped into %d more chunks than there were head chunks, the gauge did not move", split))
+			case len(s.mid) == 0 && over > 0 && over <= ctx.commitDrops:
+				known(kindChunksDropped, fmt.Sprintf("Append had accepted %d more samples than the commit appended", ctx.commitDrops))
+			case len(s.mid) == 0 && over < 0 && over >= -split-0 && over+ctx.commitDrops >= -split:
+				known(kindOOOSplit, fmt.Sprintf("the step added %d out-of-order m-mapped chunks (recount before: %+v)", rc.OOOMmappedChunks-ctx.before.OOOMmappedChunks, ctx.before))
+			default:
+				c.Violatef("chunks-gauge-mismatch", "config {%s}\nafter %s: prometheus_tsdb_head_chunks = %v (known offset carried: %d) but the recount gives %d (ooo split observed: %d, hook observations: %d, samples dropped at commit: %d)%s", s.cfg, where, gotChunks, s.biasChunks, totalChunks, split, len(s.mid), ctx.commitDrops, suffix())
+				ok = false
+			}
 		}
 	}
 	if snapshotLoaded && rc.HeadChunks > 0 {
